@@ -40,6 +40,7 @@ class TreeTranslator:
         self.notes = []
         self.helpers = {n.name: n for n in tree.body if isinstance(n, ast.FunctionDef)}
         self.copy_of, self.tuple_of, self.whole, self.unpacked = {}, {}, set(), []
+        self.alias = {}
         self.out_var = None
         self.was_var = None
         self.loops = []          # (guard, body term)
@@ -104,6 +105,10 @@ class TreeTranslator:
         if isinstance(t, ast.Tuple) and len(t.elts) == 4 and all(isinstance(e, ast.Name) for e in t.elts) and isinstance(v, ast.Name) and v.id in self.whole:
             self.unpacked = [e.id for e in t.elts]
             return True
+        if isinstance(t, ast.Name) and isinstance(v, ast.Subscript) and isinstance(v.value, ast.Name) and v.value.id in self.whole \
+                and isinstance(v.slice, ast.Constant) and v.slice.value in (0, 1, 2, 3):
+            self.alias[t.id] = v.slice.value       # `pytree_memo = memos[2]`
+            return True
         if isinstance(t, ast.Name):
             c = self._copied(v)
             if c is not None and (c in self.unpacked or any(c == f"{w}[{i}]" for w in self.whole for i in range(4))):
@@ -139,7 +144,7 @@ class TreeTranslator:
 
     def _pytree_memo_expr(self, e):
         src = _u(e)
-        return (len(self.unpacked) == 4 and src == self.unpacked[2]) or any(src == f"{w}[2]" for w in self.whole)
+        return (len(self.unpacked) == 4 and src == self.unpacked[2]) or any(src == f"{w}[2]" for w in self.whole) or self.alias.get(src) == 2
 
     # ---- leaf predicates
     def _const_fn(self, fn, value):
@@ -195,6 +200,7 @@ class TreeTranslator:
         stmts = _strip(stmts)
         out = []
         i = 0
+        guard0 = self.guard
         while i < len(stmts):
             st = stmts[i]
             # the snapshot group
@@ -211,7 +217,15 @@ class TreeTranslator:
                 i = max(j, i + 1)
                 continue
             out.append(self.stmt(st))
+            # `if cls.structure is None: ...; return ...` with no else: what follows runs only with a structure name
+            if isinstance(st, ast.If) and not st.orelse and st.body and isinstance(_strip(st.body)[-1], (ast.Return, ast.Raise)):
+                c = self._norm(self.cond(st.test)) if "cls.structure" in _u(st.test) else None
+                if c == "(.not .hasStructure)":
+                    self.guard = True
+                elif c == ".hasStructure":
+                    self.guard = False
             i += 1
+        self.guard = guard0
         if not out:
             return ".skip"
         r = out[-1]
